@@ -2754,20 +2754,9 @@ impl Interpreter {
                             self.intern("false")
                         }
                     }
-                    ExoticObject::Array { elements } => {
-                        let strings: Vec<String> = elements
-                            .iter()
-                            .map(|v| match v {
-                                JsValue::Null | JsValue::Undefined => String::new(),
-                                JsValue::String(s) => s.to_string(),
-                                JsValue::Number(n) => crate::value::number_to_string(*n),
-                                JsValue::Boolean(true) => "true".to_string(),
-                                JsValue::Boolean(false) => "false".to_string(),
-                                // nested arrays and other objects convert like they do on their own
-                                other => other.to_js_string().to_string(),
-                            })
-                            .collect();
-                        JsString::from(strings.join(","))
+                    ExoticObject::Array { .. } => {
+                        drop(borrowed);
+                        value.to_js_string()
                     }
                     _ => value.to_js_string(),
                 }
